@@ -13,6 +13,9 @@
    A theorem with a hypothesis [fix_xx v = true] needs that fix (so it holds for HEAD); the matching
    [_refuted] example is the historical witness: the same statement fails for the original behaviour.
    Theorems without such a hypothesis hold for every variant.
+   A Manager serving several groups is the product of one model per group; the groups share only
+   peerNodeID, and a heartbeat lacking this group's status is the event [ETouch]: every theorem over
+   [run] / [frun] histories therefore also speaks about a group inside a multi-group Manager.
    [ids_ok cs]: the two node ids are non-empty and different Go strings. *)
 From OV Require Import Common.Base C10.Model C10.Fine C10.Proofs C10.FineAtomic C10.FineProofs.
 Local Open Scope Z_scope.
@@ -80,12 +83,13 @@ Theorem C10_exchange_is_three_events : forall v cs w s,
 Proof. exact xchg_is_events. Qed.
 Print Assumptions C10_exchange_is_three_events.
 
-(* when every Manager call is atomic: READY is never visible between two calls and STANDBY_ALONE implies
-   "peer unknown".  NOT true when calls interleave: see C10_fine_quiescent_not_ready (what survives) and
+(* when every Manager call is atomic: READY is never visible between two calls; a started node is [n_ok]:
+   with fix_sa (HEAD) nothing more, without it STANDBY_ALONE implies "peer unknown" provided no heartbeat for
+   another group of the same Manager ([ETouch]) was handled.  NOT true when calls interleave: see C10_fine_quiescent_not_ready (what survives) and
    C10_fine_standby_alone_known_peer_refuted (what does not) *)
 Theorem C10_reachable_well_formed : forall v cs es w,
   let n := node_of w (run v cs (init_pair cs) es) in
-  n_st n <> Ready /\ (n_st n <> Init -> n_ok v n = true).
+  n_st n <> Ready /\ (fix_sa v = true \/ no_touch es = true -> n_st n <> Init -> n_ok v n = true).
 Proof. intros v cs es w; split; [apply ready_is_transient | apply run_started_ok]. Qed.
 Print Assumptions C10_reachable_well_formed.
 
@@ -184,7 +188,7 @@ Print Assumptions C10_dual_active_resolves_refuted.
 (* with the dual-standby repair: after any history that has started both nodes, ANY three fresh
    heartbeat exchanges leave exactly one active node, and further exchanges change neither state *)
 Theorem C10_no_stable_headless : forall v cs es w1 w2 w3,
-  fix_hb v = true -> ids_ok cs ->
+  fix_hb v = true -> ids_ok cs -> fix_sa v = true \/ no_touch es = true ->
   let s := run v cs (init_pair cs) es in
   n_st (p_a s) <> Init -> n_st (p_b s) <> Init ->
   let r := xchgs v cs [w1; w2; w3] (p_a s, p_b s) in
